@@ -3,6 +3,7 @@ package harness
 import (
 	"encoding/json"
 	"fmt"
+	"os"
 	"regexp"
 	"sort"
 	"strings"
@@ -141,6 +142,17 @@ func (s *s1) refOutcome(out *TxnOutcome) *RefOutcome {
 func (s *s1) checkC03(i int, out *TxnOutcome) {
 	e := s.e
 	if out.Failed {
+		// the statement speaks of accepted transactions only; how often the
+		// database refuses what the model accepts is measured, not judged
+		if os.Getenv("VERIF_PROBE_REJECTS") != "" {
+			if ref := s.refOutcome(out); ref.Edge == "" && !ref.OpFailed && ref.CommitErr == "" {
+				d := s.failDesc(out)
+				if len(d) > 90 {
+					d = d[:90]
+				}
+				e.Probes["c03_refused_but_model_accepts:"+d]++
+			}
+		}
 		return
 	}
 	ref := s.refOutcome(out)
